@@ -28,7 +28,8 @@ from common import coqrun, enc
 ID = "C17"
 PROP_FILE = "props/C17.v"
 THEOREMS = ["C17_counter_invariant", "C17_position_rule", "C17_metadata_never_dropped", "C17_metadata_transparent",
-            "C17_phase1_decomposition", "C17_filter_spec", "C17_filter_keeps_others", "C17_monotone_count",
+            "C17_phase1_decomposition", "C17_filter_spec", "C17_every_entry_counts", "C17_filter_keeps_others",
+            "C17_monotone_count",
             "C17_monotone_window"]
 ALLOWED_AXIOMS = []
 MANIFEST = {
@@ -417,11 +418,10 @@ def o_view(e):
 
 def o_filtered(view, filterstr):
     """True/False, or None when some path leaves the claimed domain (continues below a non-dict node)"""
-    flt = {}
-    for k, r in filter_entries(filterstr):
-        flt[k] = r
+    # the property (and the CLI help): "dropped iff ONE OF the attribute:regex pairs matches" - every entry counts, also
+    # two entries for the same attribute (until /repo fix "C17b" a later entry silently replaced an earlier one)
     hit = False
-    for k, r in flt.items():
+    for k, r in filter_entries(filterstr):
         node, ok = view, True
         for part in k.split("."):
             if not isinstance(node, dict):
@@ -598,7 +598,7 @@ def gen_filter(r, quirk=False):
         ents.insert(r.randrange(len(ents) + 1), r.choice(["nocolon", "a:b:c", "", " name:Recv", "name", ":", "name:(?:Recv|XYZ)"]))
     if r.random() < 0.1 and ents:
         k = ents[0].split(":")[0]
-        ents.append(k + ":" + gen_regex(r))          # repeated key: the later regex replaces the earlier one
+        ents.append(k + ":" + gen_regex(r))          # repeated key: both entries count
     return ",".join(ents)
 
 
